@@ -1,4 +1,4 @@
-From RJ Require Import Base.Prelude Base.OrderedPlan Model.Settings Model.Core Model.Fs Model.Paths Model.Sync Model.SyncTop Model.SpecRun.
+From RJ Require Import Base.Prelude Base.OrderedPlan Model.Settings Model.Core Model.Fs Model.Paths Model.Sync Model.SyncTop Model.SpecRun Model.DoerOps.
 From Coq Require Import Extraction ExtrOcamlBasic ExtrOcamlString.
 Extraction Language OCaml.
-Extraction "extracted/sync.ml" run_top run_orders run_orders_w listing_top normalize_unix same_path_text needs_delete needs_copy denormalize run_spec sget.
+Extraction "extracted/sync.ml" run_top run_orders run_orders_w listing_top normalize_unix same_path_text needs_delete needs_copy denormalize run_spec sget doer_ops.
